@@ -95,10 +95,10 @@ func init() {
 		registerDomain(f, []string{"T", "Int", idxSort}, "Real", `(assert (forall ((t T) (d Int) (J (Array Int Int)) (K (Array Int Int))) (! (=> (forall ((k Int)) (=> (and (<= 0 k) (< k (- (rank t) 1))) (= (select J k) (select K k)))) (= (`+f+` t d J) (`+f+` t d K))) :pattern ((`+f+` t d J) (`+f+` t d K)))))`, "rank")
 	}
 	registerDomain("tsum", []string{"T"}, "Real", "")
-	// matchCount(p, t): number of positions at which two rank-1 tensors compare equal; it is by definition the sum of the
-	// 0/1 indicator tensor (COUNT, paper lemma: such a sum is an integer between 0 and the number of positions)
-	registerDomain("matchCount", []string{"T", "T"}, "Int", `(assert (forall ((p T) (t T)) (! (and (<= 0 (matchCount p t)) (<= (matchCount p t) (dim p 0))) :pattern ((matchCount p t)))))
-(assert (forall ((p T) (t T) (e T)) (! (=> (and (sameShape e p) (forall ((J (Array Int Int))) (=> (inb e J) (= (el e J) (ite (<= (math_Abs (- (el p J) (el t J))) (/ 1.0 1`+strings.Repeat("0", 240)+`.0)) 1.0 0.0))))) (= (to_int (tsum e)) (matchCount p t))) :pattern ((sameShape e p) (matchCount p t)))))`, "dim", "sameShape", "inb", "el", "tsum", "abs")
+	// matchCount(p, t): number of positions at which two rank-1 tensors compare equal; it is by definition the (integer
+	// part of the) sum of the 0/1 indicator tensor. That this sum is an integer between 0 and the number of positions
+	// (COUNT) is no longer assumed here: metrics.Accuracy.Accumulate proves it from the lemma sumBinary.
+	registerDomain("matchCount", []string{"T", "T"}, "Int", `(assert (forall ((p T) (t T) (e T)) (! (=> (and (sameShape e p) (forall ((J (Array Int Int))) (=> (inb e J) (= (el e J) (ite (<= (math_Abs (- (el p J) (el t J))) (/ 1.0 1`+strings.Repeat("0", 240)+`.0)) 1.0 0.0))))) (= (to_int (tsum e)) (matchCount p t))) :pattern ((sameShape e p) (matchCount p t)))))`, "dim", "sameShape", "inb", "el", "tsum", "abs")
 	// fibre(t, d, J): the one-dimensional fibre of t along d at the position selected by J (a ghost tensor);
 	// the fibre statistics are the whole-tensor statistics of the fibre - this is their definition
 	registerDomain("fibre", []string{"T", "Int", idxSort}, "T", `(assert (forall ((t T) (d Int) (J (Array Int Int))) (! (and (= (fsum t d J) (tsum (fibre t d J))) (= (fmax t d J) (tmax (fibre t d J))) (= (fmin t d J) (tmin (fibre t d J))) (= (fvar t d J) (tvar (fibre t d J))) (= (nelems (fibre t d J)) (dim t d))) :pattern ((fibre t d J)))))`, "fsum", "fmax", "fmin", "fvar", "tsum", "tmax", "tmin", "tvar", "nelems", "dim")
